@@ -973,10 +973,9 @@ func run14(f *hx.Flags, w *world) {
 		ls := []string{"case go_ session chains",
 			"go_ inproc chain kind=enumtrait order=ab o=tttff",
 			"go_ inproc chain kind=enumtrait order=ba o=tttff",
-			"go_ inproc chain kind=edit gen=gsort",
-			"go_ inproc chain kind=edit gen=gerror"}
+			"go_ inproc chain kind=edit gen=gsort steps=2"}
 		if g.thorough {
-			ls = append(ls, "go_ inproc chain kind=edit gen=genum")
+			ls = append(ls, "go_ inproc chain kind=edit gen=gsort", "go_ inproc chain kind=edit gen=gerror", "go_ inproc chain kind=edit gen=genum")
 			for _, o := range []string{"tfftf", "ftttf", "fttff", "tftff", "ttttt"} {
 				ls = append(ls, "go_ inproc chain kind=enumtrait order=ab o="+o, "go_ inproc chain kind=enumtrait order=ba o="+o)
 			}
